@@ -229,9 +229,19 @@ def gen(rng, tier):
         stream = b"".join(parts) + FOLLOW[0]
         for sched in ([], [8192], [4096]):
             cases.append(case(stream, sched))
+    # a pending body the handler never asks for (Expect: 100-continue, Content-Length above small_body_len, answered 200),
+    # sent by the client after a pause and starting with bytes that look like a request: framing comes from the headers,
+    # so those bytes are body, never a request (loop-back only: the handler log must show the one request)
+    expect_loops = []
+    for n in (65537, 70000) if tier == "quick" else (65537, 70000, 100000, 131073):
+        head = render(b"POST", b"/up", [(b"Expect", b"100-continue"), (b"Content-Length", b"%d" % n)], b"")
+        smug = b"GET /smuggled HTTP/1.1\r\n\r\n"
+        body = smug + bytes((i * 13 + 1) % 251 for i in range(n - len(smug)))
+        expect_loops.append("loop" + case(head + body, [len(head), 999999, 0])[3:])
+        expect_loops.append("loop" + case(head + body, [len(head), 999999, len(smug), 999999, 0])[3:])
     nloop = 400 if tier == "quick" else 6000
     loops = ["loop" + c[3:] for c in pool[:120]] + ["loop" + rng.choice(pool)[3:] for _ in range(nloop)]
-    return cases + loops
+    return cases + loops + expect_loops
 
 def _msgs(model):
     return [m.strip() for m in model.split(" ; ")]
